@@ -10,7 +10,8 @@
 //   script: segments separated by " RS " (NodeBuilder.Reset between them); a call token may carry the
 //           class the contract demands after '!' (none = ok)
 //   value(s): the value each segment must build, ';'-separated
-//   observation: per segment tr=<letters>|b=<ok|P|->|t=<Dump>, joined by "#rs=<letter>#"
+//   observation: per segment tr=<letters>|b=<ok|P|->|t=<Dump>, joined by "#rs=<letter>#"; after a later
+//                segment "#again=<Dump of the FIRST node>" (a built node must not change when its builder is reused)
 package main
 
 import (
@@ -94,6 +95,7 @@ func builderFor(engine string) datamodel.NodeBuilder {
 func observe(engine string, script string) string {
 	var sb strings.Builder
 	nb := builderFor(engine)
+	var first datamodel.Node
 	for i, seg := range strings.Split(script, " RS ") {
 		ops, err := lib.ParseScript(seg)
 		if err != nil {
@@ -130,6 +132,16 @@ func observe(engine string, script string) string {
 			d = "!P"
 		}
 		sb.WriteString("|b=ok|t=" + d)
+		if i == 0 {
+			first = n
+		} else if first != nil {
+			// the node built before Reset must still read as it did
+			var again string
+			if err := lib.Safely(func() error { again = lib.Dump(first); return nil }); err != nil {
+				again = "!P"
+			}
+			sb.WriteString("#again=" + again)
+		}
 	}
 	return sb.String()
 }
@@ -557,6 +569,13 @@ func main() {
 	for _, p := range []string{"basic:any", "basic:map"} {
 		runCase(out, next(), p, []*lib.Val{ab}, hexScript("BM2 AE:a Xi1 AE:a!r AK Xi5!w Xs:a!r AK Xs:b AV BL-4 AV Xn FI AE:b!r FI"))
 		runCase(out, next(), p, []*lib.Val{ab, lib.Map()}, hexScript("BM2 AE:a Xi1 AE:b BL0 AV Xn FI FI RS BM0 FI"))
+	}
+
+	l3 := lib.List(lib.Int(1), lib.Int(2), lib.Int(3))
+	l1 := lib.List(lib.Int(9))
+	for _, p := range []string{"basic:any", "basic:list"} {
+		runCase(out, next(), p, []*lib.Val{l3, l1}, "BL3 AV Xi1 AV Xi2 AV Xi3 FI RS BL0 AV Xi9 FI")
+		runCase(out, next(), p, []*lib.Val{l1, l3}, "BL1 AV Xi9 FI RS BL-1 AV Xi1 AV Xi2 AV Xi3 FI")
 	}
 
 	// ---- exhaustive call sequences over a small alphabet (anyBuilder), live prefixes only
